@@ -9,7 +9,7 @@ import itertools
 from harness.common import lean_int, lean_list, wl
 
 PID = 'C08'
-MODULES = ['NoteSeqVerif.Props.C08']
+MODULES = ['NoteSeqVerif.Props.C08', 'NoteSeqVerif.Props.C08Wrap']
 EXE = 'drv_c08'
 THEOREMS = [
     'NSV.C08.lookback_decode_label',
@@ -65,6 +65,36 @@ THEOREMS = [
     'NSV.C08.modulo_valid',
     'NSV.C08.modulo_decode_label',
     'NSV.C08.modulo_input_size_exact',
+    # Props/C08Wrap.lean: the conditional wrapper (every public method), the base-class helpers, labels_to_num_steps
+    'NSV.C08.conditional_labels_to_num_steps',
+    'NSV.C08.conditional_events_to_label',
+    'NSV.C08.conditional_class_index_to_event',
+    'NSV.C08.conditional_num_classes',
+    'NSV.C08.conditional_default_label',
+    'NSV.C08.conditional_input_size',
+    'NSV.C08.conditional_events_to_input',
+    'NSV.C08.conditional_input_size_exact',
+    'NSV.C08.conditional_encode_aligned',
+    'NSV.C08.conditional_encode_length_mismatch',
+    'NSV.C08.conditional_extend',
+    'NSV.C08.conditional_extend_loop',
+    'NSV.C08.conditional_inputs_batch',
+    'NSV.C08.extend_spec',
+    'NSV.C08.extend_loop_is_generation_loop',
+    'NSV.C08.inputs_batch_full',
+    'NSV.C08.inputs_batch_last',
+    'NSV.C08.base_labels_to_num_steps',
+    'NSV.C08.onehot_labels_to_num_steps',
+    'NSV.C08.lookback_labels_to_num_steps',
+    'NSV.C08.perf_event_num_steps',
+    'NSV.C08.perf_labels_to_num_steps',
+    'NSV.C08.modulo_labels_to_num_steps',
+    'NSV.C08.modulo_decode_total',
+    'NSV.C08.noteperf_labels_to_num_steps',
+    'NSV.C08.conditional_lookback_decode_label',
+    'NSV.C08.conditional_lookback_num_steps',
+    'NSV.C08.conditional_onehot_num_steps',
+    'NSV.C08.conditional_keymelody_num_steps',
 ]
 
 
@@ -335,6 +365,7 @@ def oracle_generic(case):
         need(len(v) == isz, 'position %d: input has %d entries, input_size = %d' % (p, len(v), isz))
         if kind[0] == 'ohi':
             need(list(v) == [oh.encode_event(evs[p])], 'position %d: one-hot index input %r' % (p, v))
+            need(enc.input_depth == n1 and 0 <= v[0] < enc.input_depth, 'position %d: index %r outside input_depth %r' % (p, v[0], enc.input_depth))
             continue
         need(one_hot_block(v, 0, n1, 'current-event block') == oh.encode_event(evs[p]), 'position %d: wrong current event' % p)
         if kind[0] == 'lb':
@@ -375,23 +406,6 @@ def oracle_generic(case):
                 sm[0][0][l] = 1.0
                 need(list(enc.extend_event_sequences([got], sm)) == [l], 'extend_event_sequences chose another class than the certain one')
             need(got == want, 'extend_event_sequences produced %r, decoding each label against its history gives %r' % (got, want))
-
-
-def oracle_cond(case):
-    ed = _mods()[0]
-    c, t = case['control'], case['target']
-    cenc, tenc = make_generic(c['onehot'], c['kind']), make_generic(t['onehot'], t['kind'])
-    enc = ed.ConditionalEventSequenceEncoderDecoder(cenc, tenc)
-    cev, tev = to_events(c['onehot'], case['control_events']), to_events(t['onehot'], case['events'])
-    need(enc.input_size == cenc.input_size + tenc.input_size and enc.num_classes == tenc.num_classes, 'sizes')
-    ins, labs = enc.encode(cev, tev)
-    need(len(ins) == len(labs) == max(len(tev) - 1, 0), 'encode returned %d pairs for %d events' % (len(ins), len(tev)))
-    for i in range(len(ins)):
-        need(len(ins[i]) == enc.input_size, 'input %d has %d entries, input_size %d' % (i, len(ins[i]), enc.input_size))
-        need(list(ins[i]) == list(cenc.events_to_input(cev, i + 1)) + list(tenc.events_to_input(tev, i)),
-             'input %d is not control@%d ++ target@%d' % (i, i + 1, i))
-        need(labs[i] == tenc.events_to_label(tev, i + 1), 'label %d is not the target label at %d' % (i, i + 1))
-        need(enc.class_index_to_event(labs[i], tev[:i + 1]) == tev[i + 1], 'label %d does not decode to target event %d' % (i, i + 1))
 
 
 def oracle_key(case):
@@ -508,7 +522,7 @@ def oracle_mod(case):
              'labels_to_num_steps != time shifts of the generated sequence')
 
 
-ORACLES = {'g': oracle_generic, 'cond': oracle_cond, 'key': oracle_key, 'np': oracle_np, 'pr': oracle_pr, 'mod': oracle_mod}
+ORACLES = {'g': oracle_generic, 'key': oracle_key, 'np': oracle_np, 'pr': oracle_pr, 'mod': oracle_mod}
 
 
 def run_oracle(case):
@@ -757,23 +771,7 @@ def mod_requests(case):
     return out
 
 
-def cond_requests(case):
-    ed = _mods()[0]
-    c, t = case['control'], case['target']
-    cenc, tenc = make_generic(c['onehot'], c['kind']), make_generic(t['onehot'], t['kind'])
-    enc = ed.ConditionalEventSequenceEncoderDecoder(cenc, tenc)
-    cev, tev = to_events(c['onehot'], case['control_events']), to_events(t['onehot'], case['events'])
-    spec = 'cond %s %s' % (spec_wire(c['onehot'], c['kind']), spec_wire(t['onehot'], t['kind']))
-    sw = '%s %s' % (evs_wire(c['onehot'], case['control_events']), evs_wire(t['onehot'], case['events']))
-    out = [('%s encode %s' % (spec, sw), sh_encode(lambda: enc.encode(cev, tev))),
-           ('%s sizes %s' % (spec, sw), '%d %d %s' % (enc.input_size, enc.num_classes, ex(lambda: enc.default_event_label, str)))]
-    for p in case.get('positions', []):
-        out.append(('%s input %s %d' % (spec, sw, p), ex(lambda p=p: enc.events_to_input(cev, tev, p), fvec)))
-    return out
-
-
-REQUESTS = {'g': generic_requests, 'key': key_requests, 'np': np_requests, 'pr': pr_requests, 'mod': mod_requests,
-            'cond': cond_requests}
+REQUESTS = {'g': generic_requests, 'key': key_requests, 'np': np_requests, 'pr': pr_requests, 'mod': mod_requests}
 
 
 # ----------------------------------------------------------------------------- more generators
@@ -840,15 +838,495 @@ def rand_mod(rng):
     return {'family': 'mod', 'cfg': [bins, ms], 'events': evs, 'labels': labels}
 
 
+# ----------------------------------------------------------------------------- components: any encoder class
+# a component spec is  ['g', onehot, kind] | ['key', mn, mx, dists, bits] | ['np', bins, ms, md, lo, hi] | ['pr', n] |
+# ['mod', bins, ms]; the conditional wrapper and the base-class helpers are exercised over all of them
+def comp_spec(x):
+    """accept the old {'onehot':…, 'kind':…} form of the conditional cases too"""
+    if isinstance(x, dict):
+        return ['g', x['onehot'], x['kind']]
+    return x
+
+
+class Comp(object):
+    def __init__(self, spec):
+        ed, med, pl, ped, pred = _mods()
+        self.spec = spec = comp_spec(spec)
+        self.fam = fam = spec[0]
+        self.pl = pl
+        if fam == 'g':
+            self.onehot, self.kind = spec[1], spec[2]
+            self.enc = make_generic(self.onehot, self.kind)
+            self.wire = 'g ' + spec_wire(self.onehot, self.kind)
+            self.evkind = self.onehot[0]
+        elif fam == 'key':
+            self.enc = med.KeyMelodyEncoderDecoder(spec[1], spec[2], list(spec[3]), spec[4])
+            self.wire = 'key %d %d %s %d' % (spec[1], spec[2], wl(spec[3]), spec[4])
+            self.evkind = 'int'
+        elif fam == 'np':
+            self.enc = ped.NotePerformanceEventSequenceEncoderDecoder(*spec[1:])
+            self.wire = 'np %d %d %d %d %d' % tuple(spec[1:])
+            self.evkind = 'np'
+        elif fam == 'pr':
+            self.enc = pred.PianorollEncoderDecoder(spec[1])
+            self.wire = 'pr %d' % spec[1]
+            self.evkind = 'pr'
+        elif fam == 'mod':
+            self.enc = ped.ModuloPerformanceEventSequenceEncoderDecoder(spec[1], spec[2])
+            self.wire = 'mod %d %d' % (spec[1], spec[2])
+            self.evkind = 'perf'
+        else:
+            raise ValueError(spec)
+
+    # events
+    def events(self, raw):
+        k = self.evkind
+        if k == 'perf':
+            PE = self.pl.PerformanceEvent
+            return [PE(t, v) for (t, v) in raw]
+        if k == 'np':
+            return np_events(self.pl, raw)
+        if k == 'pr':
+            return [tuple(e) for e in raw]
+        return list(raw)
+
+    def evs_wire(self, raw):
+        k = self.evkind
+        if k == 'perf':
+            return ' '.join([str(len(raw))] + ['%d %d' % (t, v) for (t, v) in raw])
+        if k == 'np':
+            return ' '.join([str(len(raw))] + ['%d %d %d %d' % tuple(e) for e in raw])
+        if k == 'pr':
+            return ' '.join([str(len(raw))] + [wl(e) for e in raw])
+        return wl(raw)
+
+    def show_ev(self, e):
+        k = self.evkind
+        if k == 'perf':
+            return '%d:%d' % (e.event_type, e.event_value)
+        if k == 'np':
+            return ':'.join(str(int(x.event_value)) for x in e)
+        if k == 'pr':
+            return sh_tuple(e)
+        return str(e)
+
+    # labels
+    def labs_wire(self, labels):
+        if self.fam == 'np':
+            return ' '.join([str(len(labels))] + [' '.join(str(int(x)) for x in l) for l in labels])
+        return wl(labels)
+
+    def lab_wire(self, l):
+        return ' '.join(str(int(x)) for x in l) if self.fam == 'np' else str(l)
+
+    def show_lab(self, l):
+        return sh_lab6(l) if self.fam == 'np' else str(l)
+
+    def real_label(self, l):
+        return tuple(l) if self.fam == 'np' else l
+
+    def show_nc(self, nc):
+        return wl(nc) if self.fam == 'np' else str(nc)
+
+    def label_ok(self, l):
+        nc = self.enc.num_classes
+        if self.fam == 'np':
+            return len(l) == 6 and all(0 <= a < n for a, n in zip(l, nc))
+        return 0 <= l < nc
+
+    # input vectors as a list of cell strings
+    def cells(self, v):
+        if self.fam == 'mod':
+            return mod_cells(self.enc, v).split(',') if len(v) else []
+        s = fvec(v)
+        return [] if s == '[]' else s.split(',')
+
+    # the steps of an event sequence, from what the events mean (not from the encoder)
+    def seq_steps(self, evs):
+        if self.fam == 'g' and self.onehot[0] == 'tab':
+            return sum(self.onehot[3][e] for e in evs)
+        if self.evkind == 'perf':
+            PE = self.pl.PerformanceEvent
+            return sum(e.event_value for e in evs if e.event_type == PE.TIME_SHIFT)
+        if self.fam == 'np':
+            return sum(e[0].event_value for e in evs) + (evs[-1][3].event_value if evs else 0)
+        return len(evs)       # melody events and pianoroll frames: one step each
+
+    def valid_event(self, e):
+        """is `e` an event of this encoder's configuration (independent of the encoder)"""
+        if self.fam == 'g':
+            make_onehot(self.onehot).encode_event(e)
+            return True
+        if self.fam == 'key':
+            return e in (-2, -1) or self.spec[1] <= e < self.spec[2]
+        if self.fam == 'pr':
+            return list(e) == sorted(set(e)) and all(0 <= x < self.spec[1] for x in e)
+        return True
+
+
+def shvec(cells):
+    return ','.join(cells) if cells else '[]'
+
+
+def extend_once(X, comp, evs, label):
+    """one step of the generation loop through the real `extend_event_sequences` of X (an encoder or the
+    conditional wrapper) with a certain draw; PianorollEncoderDecoder overrides extend_event_sequences with a
+    sampler that takes pitch vectors, so its loop is class_index_to_event + append"""
+    import numpy as np
+    if comp.fam == 'pr':
+        evs.append(X.class_index_to_event(label, evs))
+        return
+    if comp.fam == 'np':
+        sm = []
+        for l, n in zip(label, comp.enc.num_classes):
+            a = np.zeros((1, 1, n))
+            a[0][0][l] = 1.0
+            sm.append(a)
+        chosen = X.extend_event_sequences([evs], sm)
+        if [int(x) for x in chosen[0]] != [int(x) for x in label]:
+            raise Bad('extend_event_sequences chose %r, the certain class is %r' % (chosen, label))
+        return
+    sm = np.zeros((1, 1, comp.enc.num_classes))
+    sm[0][0][label] = 1.0
+    chosen = X.extend_event_sequences([evs], sm)
+    if list(chosen) != [label]:
+        raise Bad('extend_event_sequences chose %r, the certain class is %r' % (chosen, label))
+
+
+def xgen_loop(X, comp, primer, labels):
+    def run():
+        evs = list(primer)
+        for l in labels:
+            extend_once(X, comp, evs, comp.real_label(l))
+        return evs
+    return ex(run, lambda evs: ' '.join([str(len(evs))] + [comp.show_ev(e) for e in evs]))
+
+
+def sh_batch(batch, cells):
+    return ' '.join([str(len(batch))] + [' '.join([str(len(sq))] + [shvec(cells(v)) for v in sq]) for sq in batch])
+
+
+def cond_make(case):
+    ed = _mods()[0]
+    C, T = Comp(case['control']), Comp(case['target'])
+    return C, T, ed.ConditionalEventSequenceEncoderDecoder(C.enc, T.enc)
+
+
+def cond_cells(C, T, v):
+    """the wrapper's input as cells: the first control.input_size entries belong to the control encoder"""
+    v = list(v)
+    k = C.enc.input_size
+    if len(v) != k + T.enc.input_size:
+        return ['?len%d' % len(v)] + [repr(x) for x in v]
+    return C.cells(v[:k]) + T.cells(v[k:])
+
+
+def cond_requests(case):
+    C, T, W = cond_make(case)
+    craw, traw = case['control_events'], case['events']
+    cev, tev = C.events(craw), T.events(traw)
+    spec = 'cond %s %s' % (C.wire, T.wire)
+    sw = '%s %s' % (C.evs_wire(craw), T.evs_wire(traw))
+    cells = lambda v: cond_cells(C, T, v)  # noqa: E731
+    out = [('%s sizes' % spec, '%d %s %s' % (W.input_size, T.show_nc(W.num_classes), ex(lambda: W.default_event_label, T.show_lab)))]
+    if True:     # every component class, incl. the two whose events_to_input returns a numpy array (F-C08-3, fixed)
+        out.append(('%s encode %s' % (spec, sw), sh_encode(lambda: W.encode(cev, tev), T.show_lab, lambda v: shvec(cells(v)))))
+        for p in case.get('positions', []):
+            out.append(('%s input %s %d' % (spec, sw, p), ex(lambda p=p: W.events_to_input(cev, tev, p), lambda v: shvec(cells(v)))))
+        for full, pairs in case.get('batches', []):
+            cs, ts = [C.events(a) for a, _ in pairs], [T.events(b) for _, b in pairs]
+            out.append(('%s batch %d %d %s %d %s' % (spec, full, len(pairs), ' '.join(C.evs_wire(a) for a, _ in pairs),
+                                                    len(pairs), ' '.join(T.evs_wire(b) for _, b in pairs)),
+                        ex(lambda cs=cs, ts=ts, full=full: W.get_inputs_batch(cs, ts, bool(full)), lambda b: sh_batch(b, cells))))
+        for full, cs_raw, ts_raw in case.get('bad_batches', []):
+            cs, ts = [C.events(a) for a in cs_raw], [T.events(b) for b in ts_raw]
+            out.append(('%s batch %d %d %s %d %s' % (spec, full, len(cs_raw), ' '.join(C.evs_wire(a) for a in cs_raw),
+                                                    len(ts_raw), ' '.join(T.evs_wire(b) for b in ts_raw)),
+                        ex(lambda cs=cs, ts=ts, full=full: W.get_inputs_batch(cs, ts, bool(full)), lambda b: sh_batch(b, cells))))
+
+    def labdec(p):
+        try:
+            lab = W.events_to_label(tev, p)
+        except Exception as e:  # pylint: disable=broad-except
+            return '!' + type(e).__name__ + '|-'
+        return T.show_lab(lab) + '|' + ex(lambda: W.class_index_to_event(lab, tev[:p]), T.show_ev)
+    out.append(('%s all %s' % (spec, T.evs_wire(traw)), ' '.join(labdec(p) for p in range(len(tev)))))
+    for p in case.get('label_positions', []):
+        out.append(('%s label %s %d' % (spec, T.evs_wire(traw), p), labdec(p)))
+    labels = case.get('labels')
+    if labels is not None:
+        real = [T.real_label(l) for l in labels]
+        out.append(('%s steps %s' % (spec, T.labs_wire(labels)), ex(lambda: W.labels_to_num_steps(real), str)))
+        npr = case.get('primer', 0)
+        if case.get('generate', True):
+            out.append(('%s gen %s %s' % (spec, T.evs_wire(traw[:npr]), T.labs_wire(labels)),
+                        xgen_loop(W, T, tev[:npr], labels) + ' | ' + ex(lambda: W.labels_to_num_steps(real), str)))
+        for l in labels[:3]:
+            out.append(('%s cite %s %s' % (spec, T.evs_wire(traw), T.lab_wire(l)),
+                        ex(lambda l=l: W.class_index_to_event(T.real_label(l), tev), T.show_ev)))
+    return out
+
+
+def u_requests(case):
+    X = Comp(case['comp'])
+    enc = X.enc
+    spec = 'u ' + X.wire
+    cells = X.cells
+    out = [('%s sizes' % spec, '%d %s %s' % (enc.input_size, X.show_nc(enc.num_classes), ex(lambda: enc.default_event_label, X.show_lab)))]
+    for full, seqs in case.get('batches', []):
+        real = [X.events(sq) for sq in seqs]
+        out.append(('%s batch %d %d %s' % (spec, full, len(seqs), ' '.join(X.evs_wire(sq) for sq in seqs)),
+                    ex(lambda real=real, full=full: enc.get_inputs_batch(real, bool(full)), lambda b: sh_batch(b, cells))))
+    labels = case.get('labels')
+    if labels is not None:
+        real = [X.real_label(l) for l in labels]
+        primer = case.get('primer', [])
+        out.append(('%s xgen %s %s' % (spec, X.evs_wire(primer), X.labs_wire(labels)),
+                    xgen_loop(enc, X, X.events(primer), labels) + ' | ' + ex(lambda: enc.labels_to_num_steps(real), str)))
+        out.append(('%s steps %s' % (spec, X.labs_wire(labels)), ex(lambda: enc.labels_to_num_steps(real), str)))
+    if 'events' in case:
+        evs = X.events(case['events'])
+        out.append(('%s encode %s' % (spec, X.evs_wire(case['events'])), sh_encode(lambda: enc.encode(evs), X.show_lab, lambda v: shvec(cells(v)))))
+    return out
+
+
+# ---- oracles (from the property text and the docstrings; nothing here looks at the model)
+def check_generation(X, T, labels, primer, what):
+    """consequence clause: in-range labels drive the generation loop (class_index_to_event then append) without
+    error, every generated event is an event of the configuration, the library's own loop
+    (extend_event_sequences) builds the same sequence, and labels_to_num_steps is the step count of the sequence
+    generated from nothing"""
+    real = [T.real_label(l) for l in labels]
+    out = []
+    for l in real:
+        e = X.class_index_to_event(l, out)
+        need(T.valid_event(e), '%s: generated event %r is not an event of the configuration' % (what, e))
+        out.append(e)
+    steps = X.labels_to_num_steps(real)
+    need(steps == T.seq_steps(out), '%s: labels_to_num_steps = %r, the sequence generated from these labels has %r steps'
+         % (what, steps, T.seq_steps(out)))
+    want, got = list(primer), list(primer)
+    for l in real:
+        want.append(X.class_index_to_event(l, want))
+        extend_once(X, T, got, l)
+    need([T.show_ev(e) for e in got] == [T.show_ev(e) for e in want],
+         '%s: extend_event_sequences built %r, decoding each label against its history gives %r' % (what, got, want))
+
+
+def check_batch(get, to_input, pairs_len, full, input_size, what):
+    """get_inputs_batch docstring: [len(seqs), len(seq), INPUT_SIZE] for full_length, else [len(seqs), 1, INPUT_SIZE]
+    holding the input of the last event"""
+    batch = get()
+    need(len(batch) == len(pairs_len), '%s: batch has %d entries for %d sequences' % (what, len(batch), len(pairs_len)))
+    for k, n in enumerate(pairs_len):
+        pos = list(range(n)) if full else [n - 1]
+        need(len(batch[k]) == len(pos), '%s: sequence %d has %d inputs, expected %d' % (what, k, len(batch[k]), len(pos)))
+        for v, p in zip(batch[k], pos):
+            need(len(v) == input_size, '%s: an input has %d entries, input_size = %d' % (what, len(v), input_size))
+            need(list(v) == list(to_input(k, p)), '%s: input %d of sequence %d is not events_to_input at %d' % (what, p, k, p))
+
+
+def oracle_cond(case):
+    C, T, W = cond_make(case)
+    cenc, tenc = C.enc, T.enc
+    cev, tev = C.events(case['control_events']), T.events(case['events'])
+    need(W.input_size == cenc.input_size + tenc.input_size, 'input_size is not control + target')
+    need(W.num_classes == tenc.num_classes, 'num_classes is not the range of the target labels')
+    need(T.show_lab(W.default_event_label) == T.show_lab(tenc.default_event_label), 'default_event_label is not the default target label')
+    # per position: the label decoded against the target events before p is the target event at p, in range,
+    # and it is the label the target encoding selects (its precedence is checked by the target's own oracle)
+    for p in range(len(tev)):
+        lab = W.events_to_label(tev, p)
+        need(T.label_ok(lab), 'label %r of position %d outside num_classes %r' % (lab, p, W.num_classes))
+        dec = W.class_index_to_event(lab, tev[:p])
+        need(T.show_ev(dec) == T.show_ev(tev[p]), 'position %d: label %r decodes to %r, target event is %r' % (p, lab, dec, tev[p]))
+        need(T.show_lab(lab) == T.show_lab(tenc.events_to_label(tev, p)), 'position %d: label %r is not the target encoder\'s label' % (p, lab))
+    if len(cev) == len(tev):
+        ins, labs = W.encode(cev, tev)
+        need(len(ins) == len(labs) == max(len(tev) - 1, 0), 'encode returned %d inputs / %d labels for %d events' % (len(ins), len(labs), len(tev)))
+        for i in range(len(ins)):
+            need(isinstance(ins[i], list), 'input %d is a %s, not a list of floats' % (i, type(ins[i]).__name__))
+            need(len(ins[i]) == W.input_size, 'input %d has %d entries, input_size %d' % (i, len(ins[i]), W.input_size))
+            need(list(ins[i]) == list(cenc.events_to_input(cev, i + 1)) + list(tenc.events_to_input(tev, i)),
+                 'input %d is not control@%d ++ target@%d' % (i, i + 1, i))
+            need(T.show_lab(labs[i]) == T.show_lab(tenc.events_to_label(tev, i + 1)), 'label %d is not the target label at %d' % (i, i + 1))
+        for p in case.get('positions', []):
+            v = W.events_to_input(cev, tev, p)
+            need(len(v) == W.input_size, 'input at %d has %d entries, input_size %d' % (p, len(v), W.input_size))
+        for full, pairs in case.get('batches', []):
+            cs, ts = [C.events(a) for a, _ in pairs], [T.events(b) for _, b in pairs]
+            check_batch(lambda: W.get_inputs_batch(cs, ts, bool(full)),
+                        lambda k, p: list(cenc.events_to_input(cs[k], p + 1)) + list(tenc.events_to_input(ts[k], p)),
+                        [len(t) for t in ts], full, W.input_size, 'get_inputs_batch(full_length=%r)' % bool(full))
+    labels = case.get('labels')
+    if labels is not None and case.get('generate', True):
+        check_generation(W, T, labels, tev[:case.get('primer', 0)], 'conditional wrapper')
+
+
+def oracle_u(case):
+    X = Comp(case['comp'])
+    enc = X.enc
+    for full, seqs in case.get('batches', []):
+        real = [X.events(sq) for sq in seqs]
+        check_batch(lambda: enc.get_inputs_batch(real, bool(full)), lambda k, p: list(enc.events_to_input(real[k], p)),
+                    [len(sq) for sq in real], full, enc.input_size, 'get_inputs_batch(full_length=%r)' % bool(full))
+    labels = case.get('labels')
+    if labels is not None:
+        check_generation(enc, X, labels, X.events(case.get('primer', [])), type(enc).__name__)
+    if X.fam == 'pr' and labels is not None:
+        # the pianoroll sampler: appending the pitch vector of a label appends the event the label decodes to
+        import numpy as np
+        n = X.spec[1]
+        for l in labels:
+            sq = []
+            enc.extend_event_sequences([sq], [np.array([(l >> i) & 1 for i in range(n)])])
+            need(len(sq) == 1 and [int(x) for x in sq[0]] == list(enc.class_index_to_event(l, [])),
+                 'pianoroll extend_event_sequences appended %r for the pitch vector of label %d' % (sq, l))
+
+
+ORACLES['cond'] = oracle_cond
+ORACLES['u'] = oracle_u
+REQUESTS['cond'] = cond_requests
+REQUESTS['u'] = u_requests
+
+
+# ---- generators over components
+def comp_alphabet(rng, spec):
+    fam = spec[0]
+    if fam == 'g':
+        oh = spec[1]
+        if oh[0] == 'tab':
+            return list(range(oh[1])), oh[2]
+        if oh[0] == 'mel':
+            mn, mx = oh[1], oh[2]
+            return [-2, -1, mn, mx - 1] + rng.sample(range(mn, mx), min(mx - mn, rng.choice([1, 2, 4]))), -2
+        bins, ms, lo, hi = oh[1:]
+        return [(1, lo), (1, hi), (2, lo), (2, hi), (3, 1), (3, ms), (3, rng.randrange(1, ms + 1))] + ([(4, 1), (4, bins)] if bins else []), (3, ms)
+    if fam == 'key':
+        mn, mx = spec[1], spec[2]
+        return [-2, -1, -1, mn, mx - 1] + rng.sample(range(mn, mx), min(mx - mn, rng.choice([1, 3, 6]))) * 2, -2
+    if fam == 'mod':
+        bins, ms = spec[1], spec[2]
+        return [(1, 0), (1, 127), (2, 0), (2, 127), (1, rng.randrange(128)), (2, rng.randrange(128)), (3, 1), (3, ms),
+                (3, rng.randrange(1, ms + 1))] + ([(4, 1), (4, bins), (4, rng.randrange(1, bins + 1))] if bins else []), (3, ms)
+    return None, None
+
+
+def comp_events(rng, spec, n):
+    """n valid events of the configuration, structure-aware for the lookback encoders"""
+    fam = spec[0]
+    if fam == 'np':
+        bins, ms, md, lo, hi = spec[1:]
+        return [[rng.choice([0, ms, rng.randrange(0, ms + 1)]), rng.choice([lo, hi, rng.randrange(lo, hi + 1)]),
+                 rng.choice([1, bins, rng.randrange(1, bins + 1)]), rng.choice([1, md, rng.randrange(1, md + 1)])] for _ in range(n)]
+    if fam == 'pr':
+        k = spec[1]
+        return [sorted(rng.sample(range(k), rng.randrange(0, min(k, 6) + 1))) if k else [] for _ in range(n)]
+    alpha, dflt = comp_alphabet(rng, spec)
+    ds = spec[2][1] if fam == 'g' and spec[2][0] == 'lb' else spec[3] if fam == 'key' else []
+    return rand_seq(rng, alpha, dflt, ds, n)
+
+
+def comp_labels(rng, X, m):
+    nc = X.enc.num_classes
+    if X.fam == 'np':
+        return [[rng.choice([0, n - 1, rng.randrange(n)]) for n in nc] for _ in range(m)]
+    if X.fam == 'pr':
+        return [rng.choice([0, nc - 1, rng.randrange(nc)]) for _ in range(m)]
+    nlb = len(X.spec[2][1]) if X.fam == 'g' and X.spec[2][0] == 'lb' else len(X.spec[3]) if X.fam == 'key' else 0
+    return [rng.randrange(nc - nlb, nc) if (nlb and rng.random() < 0.4) else rng.randrange(nc) for _ in range(m)]
+
+
+def rand_comp(rng, role=None):
+    """role 'small': few classes (a control whose label range is smaller than the target's); 'base': a class that
+    inherits the base labels_to_num_steps; 'steps': a target whose events have variable step counts"""
+    k = rng.random()
+    if role == 'small':
+        n = rng.choice([1, 2, 2, 3])
+        perm = list(range(n))
+        rng.shuffle(perm)
+        return ['g', ['tab', n, rng.randrange(n), [rng.choice([0, 1, 2, 5]) for _ in range(n)], perm], rng.choice([['oh'], ['oh'], ['ohi'], ['lb', [1], 0]])]
+    if role == 'base':
+        if k < 0.6:
+            c = rand_key(rng)['cfg']
+            return ['key'] + c
+        return ['pr', rng.choice([0, 1, 2, 5, 8, 12])]
+    if role == 'steps':
+        if k < 0.3:
+            return ['mod', rng.choice([0, 0, 1, 8, 32]), rng.choice([1, 2, 10, 100])]
+        if k < 0.5:
+            return ['np'] + rand_np(rng)['cfg']
+        if k < 0.8:
+            bins, ms, lo = rng.choice([0, 0, 1, 8, 32]), rng.choice([1, 2, 10, 100]), rng.choice([0, 21, 60])
+            return ['g', ['perf', bins, ms, lo, rng.choice([lo, lo + 5, 108, 127])], rand_kind(rng)]
+        n = rng.choice([3, 4, 6])
+        perm = list(range(n))
+        rng.shuffle(perm)
+        return ['g', ['tab', n, rng.randrange(n), [rng.choice([0, 2, 3, 5]) for _ in range(n)], perm], rand_kind(rng)]
+    if k < 0.55:
+        oh, _, _ = rand_onehot(rng)
+        return ['g', oh, rand_kind(rng)]
+    if k < 0.7:
+        return ['key'] + rand_key(rng)['cfg']
+    if k < 0.8:
+        return ['mod', rng.choice([0, 0, 1, 8, 32, 127]), rng.choice([1, 2, 10, 100, 1000])]
+    if k < 0.9:
+        return ['np'] + rand_np(rng)['cfg']
+    return ['pr', rng.choice([0, 1, 2, 5, 8, 12, 88])]
+
+
 def rand_cond(rng):
-    coh, calpha, cd = rand_onehot(rng)
-    toh, talpha, td = rand_onehot(rng)
-    ck, tk = rand_kind(rng), rand_kind(rng)
+    k = rng.random()
+    if k < 0.3:
+        cs, ts = rand_comp(rng, 'small'), rand_comp(rng, rng.choice(['steps', None]))
+    elif k < 0.55:
+        cs, ts = rand_comp(rng, 'base'), rand_comp(rng, 'steps')
+    elif k < 0.65:
+        cs, ts = rand_comp(rng, 'steps'), rand_comp(rng, 'base')
+    else:
+        cs, ts = rand_comp(rng), rand_comp(rng)
+    C, T = Comp(cs), Comp(ts)
     n = rng.choice([0, 1, 2, 3, 8, 20])
-    cev = rand_seq(rng, calpha, cd, ck[1] if ck[0] == 'lb' else [], n)
-    tev = rand_seq(rng, talpha, td, tk[1] if tk[0] == 'lb' else [], n)
-    return {'family': 'cond', 'control': {'onehot': coh, 'kind': ck}, 'target': {'onehot': toh, 'kind': tk},
-            'control_events': cev, 'events': tev, 'positions': [p for p in (0, n // 2, n - 2) if 0 <= p < n - 1]}
+    cev, tev = comp_events(rng, cs, n), comp_events(rng, ts, n)
+    case = {'family': 'cond', 'control': cs, 'target': ts, 'control_events': cev, 'events': tev,
+            'positions': [p for p in (0, n // 2, n - 2) if 0 <= p < n - 1],
+            'labels': comp_labels(rng, T, rng.choice([0, 1, 2, 5, 12, 30])), 'primer': rng.randrange(n + 1)}
+    batches = []
+    for full in (0, 1):
+        pairs = []
+        for _ in range(rng.choice([0, 1, 2])):
+            m = rng.choice([0, 1, 2, 5]) if full else rng.choice([1, 2, 5])
+            pairs.append([comp_events(rng, cs, m + rng.choice([1, 1, 2])), comp_events(rng, ts, m)])
+        batches.append([full, pairs])
+    case['batches'] = batches
+    return case
+
+
+def steps_differ(case):
+    """do control and target answer labels_to_num_steps differently on this case's labels (what a wrapper asking
+    the wrong encoder needs in order to show)"""
+    C, T, _ = cond_make(case)
+    real = [T.real_label(l) for l in case['labels']]
+
+    def ans(enc):
+        try:
+            return enc.labels_to_num_steps(real)
+        except Exception as e:  # pylint: disable=broad-except
+            return type(e).__name__
+    return ans(C.enc) != ans(T.enc)
+
+
+def rand_u(rng):
+    spec = rand_comp(rng, rng.choice([None, None, 'steps', 'base']))
+    X = Comp(spec)
+    batches = []
+    for full in (0, 1):
+        seqs = [comp_events(rng, spec, rng.choice([0, 1, 2, 5, 9]) if full else rng.choice([1, 2, 5, 9])) for _ in range(rng.choice([0, 1, 2, 3]))]
+        batches.append([full, seqs])
+    case = {'family': 'u', 'comp': spec, 'batches': batches, 'events': comp_events(rng, spec, rng.choice([0, 1, 2, 6]))}
+    case['primer'] = comp_events(rng, spec, rng.choice([0, 1, 3]))
+    case['labels'] = comp_labels(rng, X, rng.choice([0, 1, 2, 5, 12, 30]))
+    return case
 
 
 # ----------------------------------------------------------------------------- malformed stream
@@ -974,6 +1452,20 @@ def hist_of(case):
             h.append('dists:' + ('empty' if not ds else 'ascending' if all(a < b for a, b in zip(ds, ds[1:])) else 'unsorted-or-dup'))
             if ds and max(ds) > len(case['events']):
                 h.append('dist>len')
+    if f == 'cond':
+        cs, ts = comp_spec(case['control']), comp_spec(case['target'])
+
+        def cls(sp):
+            return sp[0] if sp[0] != 'g' else 'g-%s-%s' % (sp[1][0], sp[2][0])
+        h = ['cond', 'control:' + cls(cs), 'target:' + cls(ts)]
+        if case.get('labels'):
+            try:
+                h.append('control/target labels_to_num_steps ' + ('differ' if steps_differ(case) else 'agree'))
+            except Exception:  # pylint: disable=broad-except
+                pass
+    if f == 'u':
+        sp = comp_spec(case['comp'])
+        h = ['helpers:' + (sp[0] if sp[0] != 'g' else 'g-%s-%s' % (sp[1][0], sp[2][0]))]
     if 'events' in case:
         n = len(case['events'])
         h.append('len:' + ('0' if n == 0 else '1' if n == 1 else '2-8' if n <= 8 else '9-40' if n <= 40 else '41-100'))
@@ -985,11 +1477,14 @@ def run(chk):
     chk.prove(MODULES, THEOREMS, [EXE], extra_trusted=[
         'C09 theorems melody_encode_decode / melody_decode_encode (imported to discharge the OneHot hypotheses for the melody instance)',
         'cos/sin values of the modulo-performance input are not modelled (only slot positions and table rows)',
-        'numpy semantics used by the encoders (np.hstack, fancy-index assignment, bincount) are modelled, not verified'])
+        'numpy semantics used by the encoders (np.hstack, fancy-index assignment, bincount) are modelled, not verified',
+        'np.random.choice with a one-hot distribution returns the certain class (extend_event_sequences is modelled with the drawn class given)'])
     chk.rule = ('one evaluation = one (encoder configuration, event sequence[, label sequence]) request answered identically by the '
                 'real classes and the Lean model: for every position the label, the label decoded against the prefix, and the '
-                'full input vector; plus encode(), sizes and the generation loop. non-trivial = distinct request whose answer '
-                'contains at least one non-error result')
+                'full input vector; plus encode(), sizes, the generation loop through extend_event_sequences, get_inputs_batch and '
+                'labels_to_num_steps of every class, and every public method of the conditional wrapper over control/target pairs of '
+                'all classes (histogram: how many pairs answer labels_to_num_steps differently). non-trivial = distinct request whose '
+                'answer contains at least one non-error result')
     batch = []      # (stream, request, impl answer, case-or-None)
 
     def add_case(stream, case, oracle=True, **kw):
@@ -1070,17 +1565,37 @@ def run(chk):
         add_case('modulo', rand_mod(rng))
     flush()
     rng = chk.subrng('cond')
-    for _ in range(chk.n(120, 6000)):
+    for _ in range(chk.n(200, 8000)):
         add_case('conditional', rand_cond(rng))
         if len(batch) > 3000:
             flush()
     flush()
-    # conditional: unequal lengths must raise ValueError in both
+    # base-class helpers (get_inputs_batch, extend_event_sequences, labels_to_num_steps, encode) of every class
+    rng = chk.subrng('helpers')
+    for _ in range(chk.n(200, 8000)):
+        add_case('helpers', rand_u(rng))
+        if len(batch) > 3000:
+            flush()
+    flush()
+    # conditional: unequal lengths must raise ValueError in both; control not longer than target / a different
+    # number of sequences in get_inputs_batch; labels outside the target's range (compared by exception class)
     rng = chk.subrng('cond-bad')
-    for _ in range(chk.n(20, 200)):
+    for _ in range(chk.n(40, 600)):
         case = rand_cond(rng)
-        case['control_events'] = case['control_events'] + case['control_events'][:1] if case['control_events'] and rng.random() < 0.5 else case['control_events'][:-1] if case['control_events'] else case['control_events']
+        C, T = Comp(case['control']), Comp(case['target'])
+        ce = case['control_events']
+        case['control_events'] = ce + ce[:1] if ce and rng.random() < 0.5 else ce[:-1]
         case['positions'] = []
+        case.pop('batches', None)
+        m = rng.choice([0, 1, 3])
+        tseq, cseq = comp_events(rng, case['target'], m), comp_events(rng, case['control'], rng.randrange(0, m + 1))
+        case['bad_batches'] = [[rng.choice([0, 1]), [cseq], [tseq]],
+                               [rng.choice([0, 1]), [cseq + cseq + comp_events(rng, case['control'], 1)] * rng.choice([0, 2]), [tseq]]]
+        if T.fam != 'np' and T.fam != 'pr':
+            nc = T.enc.num_classes
+            case['labels'] = [rng.randrange(-1, nc + 2) for _ in range(rng.choice([1, 3, 6]))]
+            case['generate'] = False
+        case['label_positions'] = [-1, len(case['events']), len(case['events']) + 2]
         add_case('malformed', case, oracle=False)
     rng = chk.subrng('malformed')
     for _ in range(chk.n(300, 12000)):
@@ -1130,6 +1645,25 @@ def fixed_cases():
         {'family': 'g', 'onehot': tri, 'kind': ['lb', [200], 3], 'events': [0, 0, 1, 0], 'labels': [3, 3, 1, 3]},
         {'family': 'key', 'cfg': [48, 84, [16, 32], 7], 'events': [-2] * 3 + [60, -2, 64, -1] + [-2] * 9 + [60, -2, 64, -1], 'labels': [39, 38, 36, 37, 0]},
         {'family': 'key', 'cfg': [0, 128, [2, 1], 3], 'events': [0, 0, -2, 0, 127, -1, -1], 'labels': [131, 130, 0, 127, 128, 129]},
+        # conditional wrapper whose control and target answer labels_to_num_steps differently (seeded C08-5):
+        # a 2-class one-hot control (cannot even decode the target's labels) over performance events with a lookback
+        {'family': 'cond', 'control': ['g', ['tab', 2, 0, [1, 1], [1, 0]], ['oh']],
+         'target': ['g', ['perf', 0, 100, 0, 127], ['lb', [2], 0]],
+         'control_events': [0, 1, 1, 0], 'events': [[1, 60], [3, 10], [1, 60], [3, 100]], 'positions': [0, 1, 2],
+         'labels': [60, 265, 356, 355, 0, 1], 'primer': 2,
+         'batches': [[0, [[[0, 1, 1], [[1, 60], [3, 10]]]]], [1, [[[0, 1, 1], [[1, 60], [3, 10]]], [[1], []]]]]},
+        # a control that inherits the base labels_to_num_steps (key-melody / pianoroll) with a performance target
+        {'family': 'cond', 'control': ['key', 48, 84, [16, 32], 7], 'target': ['mod', 8, 100],
+         'control_events': [60, -2, -1], 'events': [[3, 100], [1, 60], [4, 8]], 'positions': [0, 1],
+         'labels': [355, 60, 256, 188, 356, 363], 'primer': 0},
+        {'family': 'cond', 'control': ['pr', 5], 'target': ['np', 2, 3, 4, 60, 62],
+         'control_events': [[0, 4], []], 'events': [[3, 60, 1, 4], [0, 62, 2, 1]],
+         'labels': [[1, 1, 2, 1, 1, 1], [0, 1, 0, 0, 0, 0]], 'primer': 1},
+        # base-class helpers on the classes that do not override them
+        {'family': 'u', 'comp': ['key', 48, 84, [2], 3], 'batches': [[1, [[60, -2, 60], []]], [0, [[60, -2, 60], [61]]]],
+         'events': [60, -2, 60, -1], 'labels': [12, 38, 37, 36], 'primer': [60]},
+        {'family': 'u', 'comp': ['np', 2, 3, 4, 60, 62], 'batches': [[1, [[[3, 60, 1, 4]]]], [0, [[[3, 60, 1, 4], [0, 62, 2, 1]]]]],
+         'events': [[3, 60, 1, 4], [0, 62, 2, 1]], 'labels': [[1, 1, 2, 1, 1, 1], [0, 1, 0, 0, 0, 0]], 'primer': []},
     ]
 
 
